@@ -121,6 +121,9 @@ func (h *NFSProcedureHandler) handleSetattr(body io.Reader, reply *RPCReply, aut
 		if sattr.Size > uint64(math.MaxInt64) {
 			return nfsErrorWithWcc(reply, NFSERR_INVAL), nil
 		}
+		if limit := h.server.handler.policy.Load().MaxFileSize; limit > 0 && int64(sattr.Size) > limit {
+			return nfsErrorWithWcc(reply, NFSERR_FBIG), nil
+		}
 		if err := node.Truncate(int64(sattr.Size)); err != nil {
 			return nfsErrorWithWcc(reply, mapError(err)), nil
 		}
